@@ -739,7 +739,7 @@ enum Shape {
     /// scans next to splits: one writer appends 100–160 rows (multi-row inserts) to a table preloaded to several pages, so
     /// that its right-most leaves split and are redistributed, while 3 readers keep scanning that table
     ScanVsSplit,
-    /// several writers insert into / delete from the SAME table (region `same_table_writers`)
+    /// several writers insert into / delete from the SAME table (no serial order is demanded: snapshot isolation admits write skew)
     SameTableWriters,
     /// as Deep with a cache of 12–20 pages, below the working set: frames are evicted while other threads pin pages
     SmallCache,
@@ -957,7 +957,10 @@ fn gen_case(rng: &mut Rng, shape: Shape, small_cache: bool) -> Case {
             tags.push("scan_vs_write".into());
             tags.push("clean".into());
         }
-        Shape::SameTableWriters => tags.push("same_table_writers".into()),
+        Shape::SameTableWriters => {
+            tags.push("same_table_writers".into());
+            tags.push("clean".into());
+        }
         Shape::SmallCache => {
             tags.push("small_cache".into());
             tags.push("clean".into());
@@ -982,9 +985,10 @@ impl Engine for ThreadsEngine {
             Shape::SnapshotRace,
             Shape::ScanVsSplit,
             Shape::SmallCache,
+            Shape::SameTableWriters,
         ];
-        // cases of the three known-finding regions are spread among the clean ones (a hang costs its supervisor slot 10 s)
-        let regions = [Shape::SameTableWriters, Shape::FlushConcurrent, Shape::SubQ, Shape::SameTableWriters];
+        // cases of the two known-finding regions are spread among the clean ones (a hang costs its supervisor slot 10 s)
+        let regions = [Shape::FlushConcurrent, Shape::SubQ];
         let rounds = if quick { 40 } else { 600 };
         for r in 0..rounds {
             for s in clean {
